@@ -489,3 +489,8 @@ PROPS["C17"] = {
     ],
     "timeout": {"quick": 900, "thorough": 7200},
 }
+
+
+# the shipped configuration (NDEBUG): programs that arm timers between stop() and the return of run() are only generated here
+PROPS["C02"]["jobs"].append({"name": "random-ndebug", "engine": "timers", "mode": "random", "variant": "asan-ndebug", "args": {"n": T(15000, 500000), "maxops": T(60, 80)}})
+PROPS["C03"]["jobs"].append({"name": "random-ndebug", "engine": "timers", "mode": "random", "variant": "asan-ndebug", "args": {"n": T(15000, 500000), "maxops": T(60, 80)}})
